@@ -4,8 +4,10 @@ import (
 	"io"
 	"os"
 	"path/filepath"
+	"strings"
 
 	"github.com/goatcms/goatcore/filesystem"
+	"github.com/goatcms/goatcore/varutil/goaterr"
 )
 
 // Copy duplicate a file or a directory
@@ -19,11 +21,17 @@ func Copy(src, dest string) error {
 // CopyDirectory copy a directory and sub-direcotories and files on local files system.
 func CopyDirectory(src, dest string) error {
 	return filepath.Walk(src, func(path string, info os.FileInfo, err error) error {
-		subPath := path + "/" + info.Name()
-		if info.IsDir() {
-			return MkdirAll(subPath, filesystem.DefaultUnixDirMode)
+		if err != nil {
+			return err
 		}
-		return CopyFile(src+subPath, dest+subPath)
+		if !strings.HasPrefix(path, src) {
+			return goaterr.Errorf("%s is outside of the copied directory %s", path, src)
+		}
+		target := dest + path[len(src):]
+		if info.IsDir() {
+			return MkdirAll(target, filesystem.DefaultUnixDirMode)
+		}
+		return CopyFile(path, target)
 	})
 }
 
